@@ -913,6 +913,12 @@ func (x *g) def() {
 		extra = append(extra, &varInfo{kw, KDict, nil})
 		x.f("kwargs")
 	}
+	retain := ""
+	if !sig.recDepth && len(extra) > 0 && x.chance(0.5, "retain-args") {
+		e := extra[x.intn(len(extra), "retainwhich")]
+		retain, sig.ret = e.name, e.k
+		x.f("retained-varargs")
+	}
 	x.line("def %s(%s):", name, strings.Join(params, ", "))
 	if !x.sc.file {
 		x.f("nested-def")
@@ -941,6 +947,9 @@ func (x *g) def() {
 		self := &varInfo{name, 0, sig}
 		call := x.callExprWithDepth(self, fmt.Sprintf("%s - 1", sig.posNames[0]))
 		x.line("return t(%s, %s) + %s", x.tag(), call, x.expr(KInt, 1))
+	} else if retain != "" {
+		// the *args tuple / **kwargs dict itself outlives the call
+		x.line("return %s", retain)
 	} else {
 		x.line("return %s", x.expr(sig.ret, 2))
 	}
